@@ -5,6 +5,8 @@
 package main
 
 import (
+	"io"
+	"log"
 	"encoding/json"
 	"flag"
 	"fmt"
@@ -15,6 +17,7 @@ import (
 var checks = map[string]func(*Ctx){}
 
 func main() {
+	log.SetOutput(io.Discard) // the emulator logs bad patterns etc.; not part of any observation
 	if len(os.Args) < 2 {
 		fmt.Fprintln(os.Stderr, "usage: verif check --property Cxx --tier quick|thorough | verif replay <path>")
 		os.Exit(2)
